@@ -50,7 +50,16 @@ class debug_logging:
 
             self.lg = logging.getLogger('s3transfer')
             self.old = self.lg.level
-            self.h = logging.NullHandler()
+            class Formatting(logging.Handler):
+                """Formats every record (as a stream / file / monitoring handler would) and throws the text away."""
+
+                def emit(self, record):
+                    self.format(record)
+
+                def handleError(self, record):  # an exception while formatting is the library's, let it be seen
+                    raise
+
+            self.h = Formatting()
             self.lg.addHandler(self.h)
             self.lg.setLevel(logging.DEBUG)
 
